@@ -381,6 +381,22 @@ func checkSliceArrayAlike(r *Run, prog *Program, a *Anchors, pfx string) {
 				if sameSubject(s.x, ar.x) && (ar.target == s.target || reaches(ar.target, s.target)) {
 					ok = true
 				}
+				// each in a case of its own, both handed to the same helper (`filterList(v, …)`)
+				if sameSubject(s.x, ar.x) {
+					callee := func(b *ssa.BasicBlock) *ssa.Function {
+						for _, ins := range b.Instrs {
+							if c, isC := ins.(*ssa.Call); isC {
+								if g := c.Call.StaticCallee(); g != nil && prog.InModule(g) {
+									return g
+								}
+							}
+						}
+						return nil
+					}
+					if g := callee(s.target); g != nil && g == callee(ar.target) {
+						ok = true
+					}
+				}
 			}
 			if !ok {
 				// `kind == Slice || kind == Array` as the value of a predicate: the array test is not a branch of its own
@@ -414,5 +430,5 @@ func checkSliceArrayAlike(r *Run, prog *Program, a *Anchors, pfx string) {
 				fn.Name()+" singles out values of kind Slice here but not, in the same way, those of kind Array: arrays are lists everywhere else")
 		}
 	}
-	r.Check(pfx+".slice-array-alike", "census", prog.pos(a.Dispatch.Pos()), n >= 3, fmt.Sprintf("info: %d tests for kind Slice examined", n))
+	r.Check(pfx+".slice-array-alike", "census", prog.pos(a.Dispatch.Pos()), n >= 1, fmt.Sprintf("info: %d tests for kind Slice examined", n))
 }
